@@ -124,6 +124,10 @@ class InterpBase:
     # -- driver ------------------------------------------------------------------------
     def run(self, func: FuncInfo, args: Dict[str, AVal], pc=False) -> Summary:
         summ = None
+        args = dict(args)
+        for prm in func.params:
+            if prm.name not in args and prm.default is not None:
+                args[prm.name] = self.default_value(func, prm.default)
         self.final = getattr(self, "final", set())
         for _ in range(self.MAX_ROUNDS):
             self.dirty = False
@@ -255,7 +259,9 @@ class InterpBase:
                 v = elem_of(v)
             frame.yields = join(frame.yields, v)
             return env
-        self.ev(st.value, env, frame)
+        v = self.ev(st.value, env, frame)
+        if v.is_bottom and isinstance(st.value, ast.Call):
+            return None
         return self.post_success(st.value, dict(env))
 
     def x_Pass(self, st, env, frame):
@@ -325,6 +331,8 @@ class InterpBase:
 
     def x_Assign(self, st, env, frame):
         v = self.ev(st.value, env, frame)
+        if v.is_bottom:
+            return None      # the right-hand side never yields a value (it always raises): the path ends here
         env = self.post_success(st.value, dict(env))
         for t in st.targets:
             env = self.assign(t, v, env, frame, st, value_node=st.value)
@@ -368,6 +376,8 @@ class InterpBase:
 
     def x_If(self, st, env, frame):
         tv = self.ev(st.test, env, frame)
+        if tv.is_bottom:
+            return None
         truth = self.truth(tv)
         pre_pc = env.get(PC)
         tainted_test = truth is None and tv.taint > 0
@@ -393,8 +403,16 @@ class InterpBase:
 
     def x_For(self, st, env, frame):
         it = self.ev(st.iter, env, frame)
+        if it.is_bottom:
+            return None
         self.iter_ops(it, st.iter, env, frame)
         el = self.iter_elem(it, st.iter, env, frame)
+        if el.is_bottom:
+            # nothing to iterate over: the body never runs
+            out = dict(env)
+            if st.orelse:
+                return self.exec_block(st.orelse, out, frame)
+            return out
         ks = key_source(st.iter, it)
         if ks and not el.is_bottom and el.kof is None:
             el = replace(el, kof=ks)
